@@ -239,6 +239,21 @@ def check_xorshift(chk):
 STEPPERS = {"next_u32", "next_u64", "fill_bytes", "try_next_u32", "try_next_u64", "try_fill_bytes", "jump", "long_jump"}
 
 
+def _from_one_call(x, calls):
+    """x is a component of the value returned by one of the calls"""
+    t = x
+    for _ in range(4):
+        if t.op == "res" and any(t.args[0] is c[4] for c in calls):
+            return True
+        if t.op in ("select", "resarr") and t.args:
+            t = t.args[0]
+            if t.op == "resarr" and any(t.args[0] is c[4] for c in calls):
+                return True
+        else:
+            return False
+    return False
+
+
 def check_mutators(chk, crate, g, rule="R9"):
     """R9: besides the stepping operations (powers of the engine's step: C07.R4/R5; jumps: C06) nothing reachable through the
     public surface may change the state words other than by a GF(2)-linear bijection - a setter, a reset, `AsMut`, a public
@@ -283,6 +298,11 @@ def check_mutators(chk, crate, g, rule="R9"):
                 chk.ob(rule, inst + "|does not hand out a mutable reference into the generator", False, "returns %s" % rt["s"], where=where)
                 continue
             ev = crate.evaluator()
+            # the type's own constructors stay calls: a method may also replace the state by a freshly seeded one (`*self =
+            # Self::from_seed(seed)`), which the seeding rules above cover
+            ctor_keys = [k_ for im_ in crate.impls_of(g.path) if im_.get("trait") == SEEDABLE for k_ in im_["methods"].values()]
+            for k_ in ctor_keys:
+                ev.no_inline.add(k_)
             st = State()
             try:
                 ref, pre, oid = sym_self(ev, st, g.tyid, "self#state")  # (a name no argument can have)
@@ -294,6 +314,11 @@ def check_mutators(chk, crate, g, rule="R9"):
             post = flat_leaves(st.objs[oid])
             if len(post) == len(pre) and all(a is b_ for a, b_ in zip(post, pre)):
                 chk.ob(rule, inst + "|does not write the state", True, "", where=where, nontrivial=False)
+                continue
+            ctor_calls = [c for c in ev.calls if c[1] in ctor_keys or any(c[1].startswith(k_.split("::<")[0]) for k_ in ctor_keys)]
+            if ctor_calls and all(isinstance(x, T.T) and x.op in ("res", "select") and _from_one_call(x, ctor_calls) for x in post):
+                chk.ob(rule, inst + "|replaces the state by that of a generator built by the type's own seeding functions", True, "", where=where,
+                       nontrivial=False)
                 continue
             rows, consts, bad = T.linear_rows(post, pre) if all(isinstance(x, T.T) for x in post) else (None, None, None)
             nbits = sum(x.w for x in pre)
